@@ -270,3 +270,70 @@ def _(c):
     c.may_raise("IOError", "an unreadable child tile propagates")
     c.may_raise("ValueError", "propagated from read_image")
     c.on_path(walk_trace)
+
+
+# ---- cascade_images: the glue between the walk (C01) and the merger callback (C02) -----------------------------------
+# One walk over the pyramid of depth `start` — generic when no filter is given, TOAST-filtered with THE CALLER'S filter
+# otherwise — whose callback is the walk_callback of a TileMerger built from the caller's pio and merger; nothing at all
+# for start < 1.
+contract("toasty.pyramid.Pyramid.new_generic")(lambda c: c.inline())
+contract("toasty.merge.TileMerger.__init__")(lambda c: c.inline())
+
+CI_CASES = [{"filtered": f, "bottom_up": b} for f in (False, True) for b in (False, True)]
+
+
+def ci_setup(interp, path):
+    case = interp._case
+    pio = Inst("PyramidIO", module="toasty.pyramid", fields={"_base_dir": "base", "_scheme": "{1}/{3}/{3}_{2}",
+                                                             "_default_format": "fits" if case["bottom_up"] else "png"})
+    return {"pio": pio, "start": z3.Int(fresh_name("start")), "merger": Opaque("merger", "merger"),
+            "parallel": z3.Int(fresh_name("parallel")), "cli_progress": z3.Bool(fresh_name("cli_progress")),
+            "tile_filter": Opaque("tile_filter", "tile_filter") if case["filtered"] else None}
+
+
+def ci_trace(m, path, fr, env, outcome, value, exc):
+    if outcome != "return":
+        return
+    case = m._case
+    E = fr.entry_env
+    start = z3num(E.lookup("start"))
+    calls = [e for e in path.events if e[0] == "call" and e[1].endswith("Pyramid.walk")]
+    name = m.oblname("one_walk_of_the_right_pyramid_with_this_mergers_callback")
+    if not calls:
+        path.oblige(m.oblname("nothing_to_do_only_below_level_1"), start < 1, kind="trace", assume_after=False)
+        return
+    path.oblige(m.oblname("nothing_to_do_only_below_level_1"), start >= 1, kind="trace", assume_after=False)
+    if len(calls) != 1:
+        path.oblige(name, z3.BoolVal(False), kind="trace", assume_after=False)
+        return
+    a = calls[0][2]
+    pyr, cb = a.get("self"), a.get("callback")
+    ok = isinstance(pyr, Inst) and pyr.cls == "Pyramid"
+    g = z3.BoolVal(False)
+    if ok:
+        flt, cs, apex = pyr.fields.get("_tile_filter"), pyr.fields.get("_coordsys"), pyr.fields.get("_apex")
+        if case["filtered"]:
+            ok = isinstance(flt, Opaque) and flt.name == "tile_filter" and cs is not None
+        else:
+            ok = flt is None and cs is None
+        ok = ok and (apex is None or [v for v in apex.vals] == [0, 0, 0])
+        # the callback is the bound walk_callback of a TileMerger over the caller's pio and merger
+        recv = getattr(cb, "recv", None) if cb is not None else None
+        recv = recv if recv is not None else getattr(cb, "obj", None)
+        okcb = (getattr(cb, "attr", None) == "walk_callback" or getattr(cb, "name", None) == "walk_callback")
+        tm = recv
+        okcb = okcb and isinstance(tm, Inst) and tm.cls == "TileMerger" \
+            and getattr(tm.fields.get("_pio"), "fields", {}).get("_base_dir") == "base" \
+            and isinstance(tm.fields.get("_merger"), Opaque) and tm.fields["_merger"].name == "merger"
+        # (how many workers are used and whether progress is shown are not part of the property: not demanded)
+        g = z3.And(z3.BoolVal(bool(ok and okcb)), z3num(pyr.fields.get("depth")) == start)
+    path.oblige(name, g, kind="trace", assume_after=False)
+
+
+@contract("toasty.merge.cascade_images")
+def _(c):
+    c.cases(*CI_CASES)
+    c.setup(ci_setup)
+    c.may_raise("CallbackError", "serial mode propagates merge errors")
+    c.may_raise("WorkerFailedError", "parallel mode reports failed workers")
+    c.on_path(ci_trace)
